@@ -184,7 +184,7 @@ func (p *Program) lookupFunc(pkgPath, key string) *ssa.Function {
 func (p *Program) allRepoFuncs() []*ssa.Function {
 	var out []*ssa.Function
 	for fn := range ssautil.AllFunctions(p.SSA) {
-		if fn.Synthetic != "" || fn.Blocks == nil {
+		if (fn.Synthetic != "" && fn.Name() != "init") || fn.Blocks == nil {
 			continue
 		}
 		pk := fn.Pkg
